@@ -5,6 +5,7 @@ import (
 	"os"
 	"os/exec"
 	"path/filepath"
+	"reflect"
 	"strconv"
 	"strings"
 
@@ -152,6 +153,24 @@ func replayOther(res *Result, rf replayFile, text string) {
 				(fails == 0 && r.exit != 0 && strings.Contains(v.Reason, "no statement failed")) {
 				res.violate(Violation{Property: "C16", Kind: v.Kind, Reason: "same output again"})
 			}
+		}
+	case "cli_io":
+		// judged by TLC (CliInput.tla) on the recorded observation; reproduced when the binary behaves the same again
+		bin := os.Getenv("VERIF_CLI_BIN")
+		if bin == "" {
+			fatal("VERIF_CLI_BIN not set")
+		}
+		dir, _ := os.MkdirTemp("", "clireplay")
+		defer os.RemoveAll(dir)
+		var run cliIoRun
+		reenc(extra["run"], &run)
+		var was struct {
+			Obs cliObs `json:"obs"`
+		}
+		reenc(v.Observed, &was)
+		obs, r := runCliIo(bin, dir, 1, &run)
+		if r.timedOut || (obs.Exit == was.Obs.Exit && (obs.ErrLines > 0) == (was.Obs.ErrLines > 0) && reflect.DeepEqual(obs.Blocks, was.Obs.Blocks)) {
+			res.violate(Violation{Property: "C16", Kind: v.Kind, Reason: "same behaviour again: " + v.Reason})
 		}
 	case "data_race", "concurrent_result", "worker_crashed", "worker_hung", "hook_log_rejected":
 		// concurrency findings are re-examined by running bursts again in a -race build
